@@ -300,7 +300,7 @@ func init() {
 	exits := []string{"break", "continue", "return", "throw", "runtime-error"}
 	registerModelProp(&modelProp{
 		id: "C04", prof: gen.ProfScope, fixed: tryControlFixed(),
-		volume:  []volScenario{{"bigscope-a", c04BigScope}, {"bigscope-b", c04BigScope}, {"bigscope-c", c04BigScope}, {"bigscope-d", c04BigScope}, {"closures", c04Closures}, {"recursion", c04Recursion}, {"fresh-invocation", c04FreshInvocation}},
+		volume:  []volScenario{{"bigscope-a", c04BigScope}, {"bigscope-b", c04BigScope}, {"bigscope-c", c04BigScope}, {"bigscope-d", c04BigScope}, {"closures", c04Closures}, {"recursion", c04Recursion}, {"fresh-invocation", c04FreshInvocation}, {"hot-name", c04HotName}},
 		rule:    "PRNG-generated terminating programs (scope profile: a 4-name pool assigned, var-declared and read back at every nesting level of if/else-if/else, the loop forms, for-in, switch, try/catch/finally, module, function literals, closures, recursion; every block left by every exit path) run on the real interpreter; the recorded read-back trace, result and error status must be admitted by a variant of the reference model. Non-trivial = the program contains at least one shadowing declaration and at least one non-normal exit (break/continue/return/throw/runtime error); distinct = distinct source text.",
 		nontriv: func(f map[string]int) bool { return hasAny(f, "shadow") && hasAny(f, exits...) },
 	})
